@@ -34,6 +34,7 @@ type signerSpec struct {
 	leaf     *fixtures.Leaf
 	date     int64
 	duration int64
+	dateNs   int64 // sub-second part of the moment of signing (the signed date is in whole seconds)
 	rs       int
 	chainLen int
 	entropy  byte
@@ -62,6 +63,9 @@ func covers(leaf *fixtures.Leaf, u *url.URL) bool {
 	return leaf.Cert().VerifyHostname(u.Hostname()) == nil
 }
 
+// offerDuplicate makes the next addSignature offer one refused duplicate (see there).
+var offerDuplicate, duplicateRefused bool
+
 // addSignature is the orchestration of sign-bundle's signatures-section
 // sub-command (cmd/sign-bundle/signedexchange.go addSignature), with the
 // record size as a parameter instead of a flag.
@@ -76,6 +80,16 @@ func addSignature(b *bundle.Bundle, signer *signature.Signer, rs int) error {
 		}
 		if err := signer.AddExchange(e, pih); err != nil {
 			return err
+		}
+		if offerDuplicate {
+			// history: the tool is then offered a second representation of the same URL, which
+			// the signer refuses; the tool skips it and carries on. The refusal must leave
+			// nothing behind.
+			e2 := &bundle.Exchange{Request: e.Request, Response: bundle.Response{Status: e.Response.Status, Header: http.Header{"Content-Type": {"text/x-second"}}, Body: []byte("second representation")}}
+			if pih2, err := e2.AddPayloadIntegrity(b.Version, rs); err == nil {
+				duplicateRefused = signer.AddExchange(e2, pih2) != nil
+			}
+			offerDuplicate = false
 		}
 	}
 	ns, err := signer.UpdateSignatures(b.Signatures)
@@ -116,6 +130,10 @@ func buildWorld(c *core.Ctx, base int64, tightWindows bool) *world {
 		s.rs = c.PickInt("signer.rs", 1, 16, 100, 4096, 16384)
 		s.chainLen = c.Int("signer.chainLen", 1, 3)
 		s.entropy = byte(c.Int("signer.entropy", 0, 255))
+		if c.Chance("signer.subSecond", 1, 3) {
+			// the signing tool reads a real clock: the moment of signing is not a whole second
+			s.dateNs = c.PickI64("signer.dateNs", 1, 499999999, 500000000, 750000000, 999999999)
+		}
 		if tightWindows {
 			s.date = base - c.I64("signer.back", 0, 50)
 			s.duration = c.PickI64("signer.duration", 100, 3600, 604799, 604800)
@@ -185,7 +203,7 @@ func (w *world) sign(reload bool) error {
 		if s.duration > 1<<32 {
 			dur = time.Hour // not representable as a Duration: Expires is set directly below
 		}
-		signer, err := signature.NewSigner(b.Version, w.chain(s), s.leaf.Key, vu, time.Unix(s.date, 0), dur)
+		signer, err := signature.NewSigner(b.Version, w.chain(s), s.leaf.Key, vu, time.Unix(s.date, s.dateNs), dur)
 		if err != nil {
 			return fmt.Errorf("NewSigner %d: %v", i, err)
 		}
@@ -213,9 +231,14 @@ func (w *world) sign(reload bool) error {
 			hdr["digest"] = dg
 			w.vouched[le.URL] = vouched{signer: i, status: le.Resp.Status, headers: hdr, body: le.Resp.Body}
 		}
+		offerDuplicate = c.Chance("signer.offeredDuplicate", 1, 4)
+		if offerDuplicate {
+			c.Probe("a second representation of a signed URL was offered and refused")
+		}
 		if err := addSignature(b, signer, s.rs); err != nil {
 			return fmt.Errorf("addSignature %d: %v", i, err)
 		}
+		offerDuplicate = false
 		c.Event("signer %d: %s rs=%d chain=%d window [%d,%d]", i, s.leaf.Name, s.rs, s.chainLen, s.date, s.date+s.duration)
 	}
 	w.b = b
@@ -452,9 +475,10 @@ func readBundle(c *core.Ctx, data []byte, plan core.ReaderPlan) (*bundle.Bundle,
 // commonInstant returns a clock reading inside every signer's window.
 func (w *world) commonInstant(c *core.Ctx) (time.Time, bool) {
 	lo, hi := int64(-1<<62), int64(1<<62)
+	loNs := int64(0)
 	for _, s := range w.signers {
 		if s.date > lo {
-			lo = s.date
+			lo, loNs = s.date, s.dateNs
 		}
 		if s.date+s.duration < hi {
 			hi = s.date + s.duration
@@ -465,7 +489,8 @@ func (w *world) commonInstant(c *core.Ctx) (time.Time, bool) {
 	}
 	switch c.Pick("t.common", 4) {
 	case 0:
-		return time.Unix(lo, 0), true
+		// the very moment the (latest) signer signed
+		return time.Unix(lo, loNs), true
 	case 1:
 		return time.Unix(hi, 0), true
 	}
@@ -688,7 +713,7 @@ func (w *world) byzantine(c *core.Ctx, b *bundle.Bundle, class string) string {
 		sg := b.Signatures
 		i := c.Pick("sig.subset", len(sg.VouchedSubsets))
 		vs := sg.VouchedSubsets[i]
-		op := c.PickStr("sig.op", "sig-bit", "signed-bit", "authority-index", "authorities-swap", "drop-subset", "dup-subset", "swap-sig", "signed-retime", "authority-drop", "malicious-signer", "malicious-signer")
+		op := c.PickStr("sig.op", "sig-bit", "signed-bit", "authority-index", "authorities-swap", "drop-subset", "dup-subset", "swap-sig", "signed-retime", "authority-drop", "authority-odd-key", "malicious-signer", "malicious-signer")
 		switch op {
 		case "sig-bit":
 			if len(vs.Sig) > 0 {
@@ -704,6 +729,12 @@ func (w *world) byzantine(c *core.Ctx, b *bundle.Bundle, class string) string {
 			if len(sg.Authorities) >= 2 {
 				a, b2 := c.Pick("sig.a", len(sg.Authorities)), c.Pick("sig.b", len(sg.Authorities))
 				sg.Authorities[a], sg.Authorities[b2] = sg.Authorities[b2], sg.Authorities[a]
+			}
+		case "authority-odd-key":
+			// an authority whose certificate carries a key of a kind the format does not use
+			if k := c.Pick("sig.a", len(sg.Authorities)); true {
+				odd := fixtures.OddCerts[c.Pick("sig.odd", len(fixtures.OddCerts))]
+				sg.Authorities[k] = &certurl.AugmentedCertificate{Cert: odd.Cert(), OCSPResponse: sg.Authorities[k].OCSPResponse}
 			}
 		case "authority-drop":
 			k := c.Pick("sig.a", len(sg.Authorities))
@@ -1024,7 +1055,7 @@ func signInterleaved(ws []*world) error {
 // signStep applies one signer to an evolving bundle (the loop body of sign).
 func (w *world) signStep(b *bundle.Bundle, s signerSpec, i int) error {
 	vu, _ := url.Parse("https://" + s.leaf.Hosts[0] + "/validity")
-	signer, err := signature.NewSigner(b.Version, w.chain(s), s.leaf.Key, vu, time.Unix(s.date, 0), time.Duration(s.duration)*time.Second)
+	signer, err := signature.NewSigner(b.Version, w.chain(s), s.leaf.Key, vu, time.Unix(s.date, s.dateNs), time.Duration(s.duration)*time.Second)
 	if err != nil {
 		return err
 	}
